@@ -1,4 +1,4 @@
-//@unit U19 props=C04,C05,C10,C13,C17,C18,C19 rlimit=100 NetcodeServer::{new, handle_connection_request, find_or_add_connect_token_entry, process_packet_internal, generate_payload_packet, update_client, disconnect} (renetcode/src/server.rs)
+//@unit U19 props=C04,C05,C10,C13,C17,C18,C19 rlimit=100 NetcodeServer::{new, handle_connection_request, find_or_add_connect_token_entry, process_packet_internal, process_packet, generate_payload_packet, update_client, disconnect} (renetcode/src/server.rs)
 #![feature(allocator_api)]
 #![allow(unused_imports, dead_code, unused_variables, unused_mut)]
 use vstd::prelude::*;
@@ -337,6 +337,22 @@ impl NetcodeServer {
 //@closure 1 -> (c: Connection) ensures c.addr == addr && c.sequence == 0 && c.client_id == connect_token.client_id
 //@cut /let in_host_list = connect_token$/ .. /\.any\(\|addr\| self\.public_addresses\.contains\(&addr\)\);/ => let in_host_list = host_in_list_unverified(&connect_token.server_addresses, &self.public_addresses);
 //@cut /if self\.clients\.iter\(\)\.flatten\(\)\.count\(\) >= self\.max_clients \{/ .. /if self\.clients\.iter\(\)\.flatten\(\)\.count\(\) >= self\.max_clients \{/ => if connected_count_unverified(&self.clients) >= self.max_clients {
+//@endfn
+
+//@fn renetcode/src/server.rs NetcodeServer::process_packet
+//@ret r
+//@spec
+        requires old(self).server_wf(), old(self).counters_ok(),
+        ensures
+            final(self).server_wf(),                                                                                          // @C10 process_packet.public_entry_keeps_the_invariant
+            // C19: an error inside never produces a datagram; whatever is sent goes to the sender, and a reply to an address without a session is a
+            // handshake reply (upper nonce half, at most 333 bytes by the request contract)
+            r matches ServerResult::PacketToSend { addr: to, payload } ==> to == addr && handshake_nonce(payload@),            // @C17,C19 process_packet.public_entry_replies_only_to_the_sender
+            // C10: the table changes only by the reported event
+            r matches ServerResult::ClientConnected { client_id, addr: a, user_data, payload } ==> a == addr
+                && !id_connected(old(self).clients@, client_id) && !addr_connected(old(self).clients@, addr)
+                && issued_challenge(old(self).challenge_key, client_id, *user_data),                                          // @C05,C10 process_packet.public_entry_connects_only_new_authenticated_sessions
+            !(r is ClientConnected) && !(r is ClientDisconnected) ==> same_sessions(old(self).clients@, final(self).clients@),   // @C10 process_packet.public_entry_no_event_no_change
 //@endfn
 
 //@fn renetcode/src/server.rs NetcodeServer::generate_payload_packet
